@@ -151,16 +151,25 @@ def mk_witness(chk, inst, stv, spec):
     def witness(model):
         idict = chk.conv.to_dict(inst, MSGI, model)
         sdict = chk.conv.to_dict(stv, MSGS, model)
-        case = {'op': 'evaluate_instance', 'instance': chk.hexdict(idict, MSGI), 'state': chk.hexdict(sdict, MSGS)}
+        # with two or more dependent variables the outcome may depend on HashMap iteration order: ask for every outcome met
+        multi = len(idict.get('decision_variable_dependency') or []) >= 2
+        case = {'op': 'evaluate_instance_variants' if multi else 'evaluate_instance', 'instance': chk.hexdict(idict, MSGI), 'state': chk.hexdict(sdict, MSGS)}
         exp = concrete_expected(idict, sdict)
 
-        def judge(res):
+        def judge1(res):
+            if res.get('timeout') or res.get('crashed'):
+                return True
             if exp is None:
                 return 'err' not in res
             if 'ok' not in res:
                 return True
             sol = chk.unhex(res['ok']['solution'], 'ommx.v1.Solution')
             return not solution_matches(sol, exp)
+
+        def judge(res):
+            if res.get('timeout') or res.get('crashed'):
+                return True
+            return any(judge1(v) for v in res.get('variants', [res]))
         return case, judge, f'evaluate(instance={idict}, state={sdict}); expected {"Err" if exp is None else exp}'
     return witness
 
